@@ -32,6 +32,8 @@ func (fx *FX) resultType(c *ssa.CallCommon) types.Type {
 }
 
 func (fx *FX) execCallWith(st *State, v ssa.Value, c *ssa.CallCommon, pos token.Pos, args []Val, isDefer bool) Val {
+	fx.inCall++
+	defer func() { fx.inCall-- }()
 	if bi, ok := c.Value.(*ssa.Builtin); ok {
 		return fx.execBuiltin(st, v, bi, c, pos, args)
 	}
@@ -133,7 +135,7 @@ func (fx *FX) copyInto(st *State, ref, off T, src VSlice, n T, dstV ssa.Value, p
 		st.Hs = fx.def("Hs", sto(st.Hs, ref, fx.fresh("copieds", SSArr)))
 		return
 	}
-	srcArr := fx.def("srcarr", sel(st.H, src.Ref))
+	srcArr := fx.def("srcarr", sel(fx.rH(st, src.Ref), src.Ref))
 	old := fx.def("dstold", sel(st.H, ref))
 	na := fx.fresh("dstnew", SIArr)
 	k := "k!c"
@@ -166,7 +168,7 @@ func (fx *FX) execAppend(st *State, v ssa.Value, c *ssa.CallCommon, pos token.Po
 		n = src.Len
 		if scalar {
 			fx.readCheck(st, src.Ref, pos, "append source")
-			srcSeq = fx.def("appsrc", app(SSeq, "view", sel(st.H, src.Ref), src.Off, src.Len))
+			srcSeq = fx.def("appsrc", app(SSeq, "view", sel(fx.rH(st, src.Ref), src.Ref), src.Off, src.Len))
 			haveSeq = true
 		}
 	case VStr:
@@ -183,23 +185,19 @@ func (fx *FX) execAppend(st *State, v ssa.Value, c *ssa.CallCommon, pos token.Po
 	if _, lit := isLit(n); !(lit && n.S == "0") {
 		fx.writeCheckGuarded(st, and(fits, gt(n, num(0))), dst.Ref, rootOf(c.Args[0]), pos, "append in place")
 	}
-	fr := fx.fresh("ref_grown", SInt)
-	fx.assume(tTrue, and(gt(fr, num(0)), not(sel(st.Alloc, fr))))
-	fx.nonNil[fr.S] = true
+	fr := fx.newRef()
+	delete(fx.knownFresh, fr.S) // the result may alias dst: not statically fresh
+	fx.assume(tTrue, not(sel(st.Alloc, fr)))
 	newCap := fx.fresh("growncap", SInt)
 	fx.assume(tTrue, ge(newCap, newLen))
 	if scalar && haveSeq {
 		// in place: H[dst.ref][dst.off+dst.len+k] = src[k]
 		oldArr := fx.def("appold", sel(st.H, dst.Ref))
+		// The contents of the result are stated at the sequence level only (result == old ++ src):
+		// element-wise quantified facts made every later heap read expensive. What append leaves in
+		// the rest of the backing object is left unconstrained (fewer facts: sound).
 		inpl := fx.fresh("appinpl", SIArr)
-		k := "k!a"
-		base := fx.def("appbase", add(dst.Off, dst.Len))
-		fx.line(fmt.Sprintf("(assert (forall ((%s Int)) (! (= (select %s %s) (ite (and (<= %s %s) (< %s (+ %s %s))) (at %s (- %s %s)) (select %s %s))) :pattern ((select %s %s)))))",
-			k, inpl.S, k, base.S, k, k, base.S, n.S, srcSeq.S, k, base.S, oldArr.S, k, inpl.S, k))
-		// grown: fresh object holds old prefix then src
 		grown := fx.fresh("appgrown", SIArr)
-		fx.line(fmt.Sprintf("(assert (forall ((%s Int)) (! (= (select %s %s) (ite (< %s %s) (select %s (+ %s %s)) (at %s (- %s %s)))) :pattern ((select %s %s)))))",
-			k, grown.S, k, k, dst.Len.S, oldArr.S, dst.Off.S, k, srcSeq.S, k, dst.Len.S, grown.S, k))
 		oldView := fx.def("appoldview", app(SSeq, "view", oldArr, dst.Off, dst.Len))
 		resRef := fx.def("appref", ite(fits, dst.Ref, fr))
 		resArr := fx.def("apparr", ite(fits, inpl, grown))
@@ -215,8 +213,9 @@ func (fx *FX) execAppend(st *State, v ssa.Value, c *ssa.CallCommon, pos token.Po
 		}
 	}
 	st.Alloc = fx.def("alloc", sto(st.Alloc, fr, tTrue))
+	resRefT := fx.def("appref", ite(fits, dst.Ref, fr))
 	res := VSlice{
-		Ref:  fx.def("appref", ite(fits, dst.Ref, fr)),
+		Ref:  resRefT,
 		Off:  fx.def("appoff", ite(fits, dst.Off, num(0))),
 		Len:  newLen,
 		Cap:  fx.def("appcap", ite(fits, dst.Cap, newCap)),
